@@ -38,12 +38,13 @@ pub struct Case {
 fn step_strategy() -> impl Strategy<Value = Step> {
     prop_oneof![
         10 => (any::<u8>(), any::<u16>()).prop_map(|(sk, item)| Step::Update { sk, item }),
-        8 => (any::<u8>(), any::<u16>(), prop_oneof![1 => Just(0u16), 20 => any::<u16>()], proptest::bool::weighted(0.15))
+        8 => (any::<u8>(), any::<u16>(), prop_oneof![1 => Just(0u16), 2 => Just(65535u16), 20 => any::<u16>()], proptest::bool::weighted(0.15))
             .prop_map(|(sk, item, frac, big)| Step::UpdateW { sk, item, frac, big }),
         3 => (any::<u8>(), 1u16..=400, any::<u64>()).prop_map(|(sk, n, seed)| Step::Burst { sk, n, seed }),
         3 => (any::<u8>(), any::<u8>()).prop_map(|(dst, src)| Step::Merge { dst, src }),
         1 => any::<u8>().prop_map(|sk| Step::Halve { sk }),
-        1 => (any::<u8>(), any::<u16>()).prop_map(|(sk, d)| Step::Decay { sk, d }),
+        // d = 65535 is a decay factor of exactly 1.0
+        1 => (any::<u8>(), prop_oneof![1 => Just(65535u16), 1 => Just(32767u16), 6 => any::<u16>()]).prop_map(|(sk, d)| Step::Decay { sk, d }),
         2 => any::<u8>().prop_map(|sk| Step::RoundTrip { sk }),
     ]
 }
